@@ -36,6 +36,9 @@ type backlog struct {
 func genBacklog(t *rapid.T, transport string, requests int) *plan {
 	pl := &plan{Transport: transport}
 	drawChannels(t, pl)
+	if transport == "tcp" {
+		drawMixed(t, pl)
+	}
 	// the cycle of packets: mostly small (none are key pictures: ipchub's queue
 	// discards on key pictures above 1000 queued, and the backlog is the point)
 	n := rapid.IntRange(16, 48).Draw(t, "cycle")
@@ -49,7 +52,7 @@ func genBacklog(t *rapid.T, transport string, requests int) *plan {
 			sp.Size = rapid.IntRange(minAudio, 600).Draw(t, "smallAudio")
 		}
 		if i == 0 {
-			sp.Ch = rtp.ChannelVideo
+			sp.Ch = pl.tcpCh()
 			sp.Size = clampSize(sp.Ch, sp.Size)
 		}
 		pl.Pkts = append(pl.Pkts, sp)
@@ -94,7 +97,13 @@ func (e *env) runBacklog(io backlogIO) (v *verdict, whileBacked int) {
 	go func() { // publisher: keeps the backlog topped up
 		defer wg.Done()
 		for i := 0; atomic.LoadInt32(&stop) == 0 && i < b.MaxFrames; {
-			if int(atomic.LoadInt64(&published))-io.received() >= b.MaxQueued {
+			if e.pl.udpLast() {
+				// a UDP player: the interleaved track is not expected on the connection, so
+				// there is no backlog to measure; publish at a steady pace
+				if i%20 == 19 {
+					time.Sleep(200 * time.Microsecond)
+				}
+			} else if int(atomic.LoadInt64(&published))-io.received() >= b.MaxQueued {
 				time.Sleep(100 * time.Microsecond)
 				continue
 			}
@@ -107,7 +116,9 @@ func (e *env) runBacklog(io backlogIO) (v *verdict, whileBacked int) {
 		}
 	}()
 	// let the backlog build before the first request
-	waitFor(2*time.Second, func() bool { return int(atomic.LoadInt64(&published))-io.received() >= b.MaxQueued/2 || e.se.broken() })
+	if !e.pl.udpLast() {
+		waitFor(2*time.Second, func() bool { return int(atomic.LoadInt64(&published))-io.received() >= b.MaxQueued/2 || e.se.broken() })
+	}
 	base := io.answered()
 	sent := 0
 	t0 := time.Now()
@@ -116,7 +127,7 @@ func (e *env) runBacklog(io backlogIO) (v *verdict, whileBacked int) {
 			break // a slow combination (few outstanding requests behind a deep pipe): enough, not a verdict
 		}
 		sent++
-		if int(atomic.LoadInt64(&published))-io.received() >= 100 {
+		if e.pl.udpLast() || int(atomic.LoadInt64(&published))-io.received() >= 100 {
 			whileBacked++
 		}
 		if _, err := e.se.send(e.pl.Requests[i%len(e.pl.Requests)]); err != nil {
